@@ -73,6 +73,8 @@ FirstNot(outs) == IF \E i \in 1..Len(outs) : outs[i] # "connerr"
 \* "socksfail" (the TCP connection is made, the SOCKS request is refused) and "hangup" (made, then closed during
 \* the negotiation) are not connection errors: that port had a listener, so the next one is not tried
 Cat(o) == IF o \in {"socksfail", "hangup"} THEN "other" ELSE o
+\* v.prior: the outcomes an earlier connect() on the same endpoint object met; what listens where may have changed
+\* since, so every connect() goes through the ports afresh
 Holds18b(v) ==
   LET k == FirstNot(v.outcomes) IN
   /\ v.obs.tried = SubSeq(WellKnown, 1, k)             \* in order, moving on only after a connection error
